@@ -74,6 +74,13 @@ fn alphabet0(b: &Built) -> Vec<Op> {
     a.push(Op::IncTa { pos: 0, liq: 3_000, lower_shift: -1, upper_shift: 0, v2: true });
     a.push(Op::IncTa { pos: 0, liq: 4_000, lower_shift: 0, upper_shift: 1, v2: false });
     a.push(Op::Dec { pos: 0, part: crate::ops::Part::Wrap(5), v2: true });
+    // anyone may call the tick-array initialisers: on an array that already exists (fixed or dynamic) they must leave it alone —
+    // fixed and dynamic arrays share one address per (pool, start index)
+    for off in [-1i8, 0, 1] {
+        a.push(Op::InitTa { off, dynamic: true, idempotent: true });
+        a.push(Op::InitTa { off, dynamic: true, idempotent: false });
+        a.push(Op::InitTa { off, dynamic: false, idempotent: false });
+    }
     if b.w.pool.tick_spacing == 64 {
         // reposition_liquidity_v2: re-range position 0 (new bounds share tick array 0 with the other positions' bounds) and back
         a.push(Op::Repos { pos: 0, lower: -64, upper: 192, liq: stdworlds::BIG / 2 });
